@@ -159,4 +159,16 @@ PROPS = {
         'corr': [step_run([NET, COMMIT, MEM, PROP, RES, STATE], [M_C04])],
         'rule': STEP_RULE, 'assumptions': STEP_ASSUME,
     },
+    'C15': {
+        'vo': NODE_VO + ['Codec.vo', 'Base64Defs.vo', 'WireDefs.vo', 'CorrCodec.vo', 'CorrWired.vo', 'ReceiveDefs.vo', 'BatchMakerDefs.vo', 'CorrBatch.vo'],
+        'sites': ['g_pk_decode_exact', 'g_sk_decode_exact', 'g_helper_deser_guarded', 'g_seal_index_guarded'],
+        'inventory': True,
+        'corr': [{'name': 'malformed', 'bin': 'codec', 'mode': 'malformed', 'emit': 'codec_malformed', 'quick': 200, 'thorough': 4000, 'layout': malformed_layout},
+                 {'name': 'wired', 'bin': 'wired', 'mode': 'fuzz', 'emit': 'wired', 'quick': 12, 'thorough': 96, 'agree': [1, 11], 'monitors': [2, 3, 4, 5, 6], 'timeout': 600, 'coq_timeout': 900},
+                 step_run([RES], [M_C15], quick=100, thorough=2000),
+                 {'name': 'batchmaker-bench', 'bin': 'comp', 'mode': 'batchmaker', 'features': 'bench', 'quick': 60, 'thorough': 1000, 'agree': [2], 'monitors': [5]}],
+        'rule': CODEC_RULE + '; ' + STEP_RULE,
+        'assumptions': STEP_ASSUME + ['panics inside third-party crates (bincode, tokio-util codec, dalek, rocksdb) are mirrored, not proved',
+                                     'no verified certificate has round 2^64-1 (debug-build overflow of round + 1)'],
+    },
 }
